@@ -165,109 +165,135 @@ Lemma tls_uniform_run e ops c s only_h1 :
   sec (effective (e_host e) (settings ops (c_tls c))).
 Proof. unfold run. rewrite run_tls. apply tls_view_sec. Qed.
 
-(* ---------- handshakes use, and are decided by, the client's current settings ---------- *)
-Definition acceptable (e : env) (c : client) : bool :=
-  let t := effective (e_host e) (c_tls c) in verify_ok t (e_srv e) && clientcert_ok t (e_srv e).
+(* ---------- handshakes use, and are decided by, the settings that govern their stack ---------- *)
+Definition acceptable_under (t : tlscfg) (e : env) : bool := verify_ok t (e_srv e) && clientcert_ok t (e_srv e).
+Definition acceptable (e : env) (c : client) : bool := acceptable_under (effective (e_host e) (c_tls c)) e.
+
+(* TCP connections (HTTP/1, HTTP/2) are governed by the client's TLS settings - unless the caller supplied his
+   own TLS through SetDialTLS / SetTLSHandshake (documented as valid for HTTP/1 and HTTP/2 only): then by that
+   function's configuration.  QUIC connections are always governed by the client's settings. *)
+Definition tcp_settings (e : env) (c : client) : tlscfg :=
+  match user_tls c with
+  | Some t => default_sname (e_host e) t
+  | None => effective (e_host e) (c_tls c)
+  end.
+Definition settings_for (e : env) (c : client) (quic : bool) : tlscfg :=
+  if quic then effective (e_host e) (c_tls c) else tcp_settings e c.
 
 Lemma verify_ok_sec a b s : sec a = sec b -> verify_ok a s = verify_ok b s.
 Proof. unfold sec, verify_ok. intros H. inversion H. congruence. Qed.
 Lemma clientcert_ok_sec a b s : sec a = sec b -> clientcert_ok a s = clientcert_ok b s.
 Proof. unfold sec, clientcert_ok. intros H. inversion H. congruence. Qed.
 
-Lemma handshake_ok_acceptable protos st oh e c p :
-  handshake protos (tls_view st oh (e_host e) (c_tls c)) (e_srv e) = HsOk p -> acceptable e c = true.
+Lemma handshake_ok_sec protos cfg cfg' e p :
+  sec cfg = sec cfg' -> handshake protos cfg (e_srv e) = HsOk p -> acceptable_under cfg' e = true.
 Proof.
-  unfold handshake, acceptable. intros H.
-  rewrite (verify_ok_sec _ _ _ (tls_view_sec st oh (e_host e) (c_tls c))) in H.
-  rewrite (clientcert_ok_sec _ _ _ (tls_view_sec st oh (e_host e) (c_tls c))) in H.
+  unfold handshake, acceptable_under. intros S H.
+  rewrite (verify_ok_sec _ _ _ S), (clientcert_ok_sec _ _ _ S) in H.
   destruct (negotiate protos _); try discriminate;
     destruct (verify_ok _ _); try discriminate; destruct (clientcert_ok _ _); try discriminate; reflexivity.
 Qed.
 
-Lemma handshake_cert_unacceptable protos st oh e c :
-  handshake protos (tls_view st oh (e_host e) (c_tls c)) (e_srv e) = HsFail ECert -> acceptable e c = false.
+Lemma handshake_cert_sec protos cfg cfg' e :
+  sec cfg = sec cfg' -> handshake protos cfg (e_srv e) = HsFail ECert -> acceptable_under cfg' e = false.
 Proof.
-  unfold handshake, acceptable. intros H.
-  rewrite (verify_ok_sec _ _ _ (tls_view_sec st oh (e_host e) (c_tls c))) in H.
-  rewrite (clientcert_ok_sec _ _ _ (tls_view_sec st oh (e_host e) (c_tls c))) in H.
+  unfold handshake, acceptable_under. intros S H.
+  rewrite (verify_ok_sec _ _ _ S), (clientcert_ok_sec _ _ _ S) in H.
   destruct (negotiate protos _); try discriminate;
     destruct (verify_ok _ _); try discriminate; destruct (clientcert_ok _ _); try discriminate; reflexivity.
 Qed.
 
-Definition dial_good (e : env) (c : client) (d : dial) : Prop :=
-  d_sni d = t_sname (effective (e_host e) (c_tls c)).
-
-Lemma mk_dial_good st oh e c h : dial_good e c (mk_dial st (tls_view st oh (e_host e) (c_tls c)) h).
+Lemma tcp_cfg_sec s oh e c : sec (tcp_cfg s oh (e_host e) c) = sec (tcp_settings e c).
 Proof.
-  unfold dial_good, mk_dial. cbn [d_sni].
-  pose proof (tls_view_sec st oh (e_host e) (c_tls c)) as H. unfold sec in H. inversion H. reflexivity.
+  unfold tcp_cfg, tcp_settings. destruct (user_tls c); [reflexivity | apply tls_view_sec].
 Qed.
 
-(* the result of one request: every handshake carries the client's server name; a success that involved a
-   handshake implies the origin is acceptable under the client's settings; a certificate failure that involved
-   a handshake implies it is not *)
+Lemma sec_sname a b : sec a = sec b -> t_sname a = t_sname b.
+Proof. unfold sec. intros H. inversion H. reflexivity. Qed.
+
+(* one handshake of a request with outcome o: it carries the governing settings' server name; success implies
+   the origin is acceptable under them, a certificate failure that it is not *)
+Definition dial_sound (e : env) (c : client) (o : outcome) (d : dial) : Prop :=
+  let t := settings_for e c (stack_quic (d_stack d)) in
+  d_sni d = t_sname t /\
+  (forall v, o = Use v -> acceptable_under t e = true) /\
+  (o = Fail ECert -> acceptable_under t e = false).
+
 Definition req_sound (e : env) (c : client) (r : res) : Prop :=
-  let '(o, ds, _) := r in
-  Forall (dial_good e c) ds /\
-  (ds <> [] -> (forall v, o = Use v -> acceptable e c = true) /\ (o = Fail ECert -> acceptable e c = false)).
+  let '(o, ds, _) := r in Forall (dial_sound e c o) ds.
 
-Lemma h3_dial_spec e c :
-  dial_good e c (snd (h3_dial e c)) /\
-  (forall p, fst (h3_dial e c) = HsOk p -> acceptable e c = true) /\
-  (fst (h3_dial e c) = HsFail ECert -> acceptable e c = false).
+Lemma tcp_dial_sound s oh e c o :
+  let cfg := tcp_cfg s oh (e_host e) c in
+  let h := handshake (s_alpn (e_srv e)) cfg (e_srv e) in
+  stack_quic s = false ->
+  (forall v, o = Use v -> exists p, h = HsOk p) -> (o = Fail ECert -> h = HsFail ECert) ->
+  dial_sound e c o (mk_dial s cfg h).
 Proof.
-  unfold h3_dial. cbn [fst snd]. split; [apply mk_dial_good|].
-  destruct (s_h3 (e_srv e)).
-  - split; [intros p Hp; eapply handshake_ok_acceptable; eauto | apply handshake_cert_unacceptable].
-  - split; [intros p Hp; discriminate | discriminate].
+  intros cfg h Q U F. unfold dial_sound, mk_dial. cbn [d_stack d_sni]. rewrite Q. cbn [settings_for].
+  pose proof (tcp_cfg_sec s oh e c) as S. fold cfg in S.
+  split; [apply sec_sname, S|]. split.
+  - intros v Hv. destruct (U v Hv) as [p Hp]. eapply handshake_ok_sec; eauto.
+  - intros Hc. eapply handshake_cert_sec; eauto.
 Qed.
+
+Lemma h3_dial_sound e c o :
+  (forall v, o = Use v -> exists p, fst (h3_dial e c) = HsOk p) -> (o = Fail ECert -> fst (h3_dial e c) = HsFail ECert) ->
+  dial_sound e c o (snd (h3_dial e c)).
+Proof.
+  unfold h3_dial. cbn [fst snd]. intros U F. unfold dial_sound, mk_dial. cbn [d_stack d_sni stack_quic settings_for].
+  pose proof (tls_view_sec S3 false (e_host e) (c_tls c)) as S.
+  split; [apply sec_sname, S|].
+  destruct (s_h3 (e_srv e)).
+  - split.
+    + intros v Hv. destruct (U v Hv) as [p Hp]. eapply handshake_ok_sec; eauto.
+    + intros Hc. eapply handshake_cert_sec; eauto.
+  - split.
+    + intros v Hv. destruct (U v Hv) as [p Hp]. discriminate.
+    + intros Hc. specialize (F Hc). discriminate.
+Qed.
+
+Ltac one_dial := apply Forall_cons; [|apply Forall_nil].
 
 Lemma rt_h3_sound oc e c r : rt_h3 oc e c = Some r -> req_sound e c r.
 Proof.
   unfold rt_h3, req_sound. destruct (negb (e_https e)).
-  { intros H; inversion H. split; [constructor | intros X; contradiction]. }
-  destruct (c_t3 c).
-  - destruct oc; [discriminate|].
-    pose proof (h3_dial_spec e c) as (G & A & B). destruct (h3_dial e c) as [h d]. cbn [fst snd] in G, A, B.
-    destruct h as [p|er].
-    + intros H; inversion H. split; [repeat constructor; exact G|]. intros _. split; [intros v _; eapply A; eauto | discriminate].
-    + destruct er; intros H; inversion H; (split; [repeat constructor; try exact G|]);
-        try (intros X; contradiction); intros _; (split; [intros v Hv; discriminate | try discriminate]).
-      intros _. apply B. reflexivity.
-  - intros H; inversion H. split; [constructor | intros X; contradiction].
-  - intros H; inversion H. split; [constructor | intros X; contradiction].
-  - intros H; inversion H. split; [constructor | intros X; contradiction].
+  { intros H; inversion H. constructor. }
+  destruct (c_t3 c); try (intros H; inversion H; constructor).
+  destruct oc; [discriminate|].
+  pose proof (h3_dial_sound e c) as D. destruct (h3_dial e c) as [h d]. cbn [fst snd] in D.
+  destruct h as [p|er].
+  - intros H; inversion H. one_dial. apply D; [intros; eexists; reflexivity | discriminate].
+  - destruct er; intros H; inversion H; try apply Forall_nil; one_dial; apply D;
+      try (intros v Hv; discriminate); try discriminate; intros _; reflexivity.
 Qed.
 
 Lemma rt_h2_dial_sound e c : req_sound e c (rt_h2_dial e c).
 Proof.
   unfold rt_h2_dial, req_sound.
-  destruct (negb (e_https e || c_allow_http c)); [split; [constructor | intros X; contradiction]|].
-  destruct (c_t2 c); [split; [constructor | intros X; contradiction]|].
+  destruct (negb (e_https e || c_allow_http c)); [constructor|].
+  destruct (c_t2 c); [constructor|].
   destruct (c_plain_dialtls c).
-  { destruct (negb (e_https e) && s_h2c (e_srv e)); (split; [constructor | intros X; contradiction]). }
-  destruct (negb (e_https e)); [split; [constructor | intros X; contradiction]|].
-  destruct (handshake (s_alpn (e_srv e)) (tls_view S2 false (e_host e) (c_tls c)) (e_srv e)) as [p|er] eqn:H.
-  - pose proof (handshake_ok_acceptable _ _ _ _ _ _ H) as A.
-    destruct (opt_bytes_eqb p (Some alpn_h2)); (split; [repeat constructor; apply mk_dial_good|]); intros _;
-      (split; [intros v _; exact A | discriminate]).
-  - split; [repeat constructor; apply mk_dial_good|]. intros _. split; [intros v Hv; discriminate|].
-    intros Hc. inversion Hc. subst. eapply handshake_cert_unacceptable; eauto.
+  { destruct (negb (e_https e) && s_h2c (e_srv e)); constructor. }
+  destruct (negb (e_https e)); [constructor|].
+  pose proof (fun o => tcp_dial_sound S2 false e c o eq_refl) as D. cbn zeta in D.
+  destruct (handshake (s_alpn (e_srv e)) (tcp_cfg S2 false (e_host e) c) (e_srv e)) as [p|er] eqn:H.
+  - destruct (opt_bytes_eqb p (Some alpn_h2)); [|destruct (c_udial c)]; one_dial; apply D;
+      try (intros; eexists; reflexivity); try discriminate; intros v Hv; discriminate.
+  - one_dial. apply D; [intros v Hv; discriminate|]. intros Hc. inversion Hc. reflexivity.
 Qed.
 
 Lemma rt_conn_sound e c : req_sound e c (rt_conn e c).
 Proof.
   unfold rt_conn, req_sound.
   set (oh := match c_force c with FH1 => true | _ => false end).
-  destruct (if oh then c_idle1 c else c_idle c); [split; [constructor | intros X; contradiction]|].
-  destruct (negb (e_https e)); [split; [constructor | intros X; contradiction]|].
-  destruct (c_plain_dialtls c); [split; [constructor | intros X; contradiction]|].
-  destruct (handshake (s_alpn (e_srv e)) (tls_view S1 oh (e_host e) (c_tls c)) (e_srv e)) as [p|er] eqn:H.
-  - pose proof (handshake_ok_acceptable _ _ _ _ _ _ H) as A.
-    destruct (negb oh && opt_bytes_eqb p (Some alpn_h2)); (split; [repeat constructor; apply mk_dial_good|]); intros _;
-      (split; [intros v _; exact A | discriminate]).
-  - split; [repeat constructor; apply mk_dial_good|]. intros _. split; [intros v Hv; discriminate|].
-    intros Hc. inversion Hc. subst. eapply handshake_cert_unacceptable; eauto.
+  destruct (if oh then c_idle1 c else c_idle c); [constructor|].
+  destruct (negb (e_https e)); [constructor|].
+  destruct (c_plain_dialtls c); [constructor|].
+  pose proof (fun o => tcp_dial_sound S1 oh e c o eq_refl) as D. cbn zeta in D.
+  destruct (handshake (s_alpn (e_srv e)) (tcp_cfg S1 oh (e_host e) c) (e_srv e)) as [p|er] eqn:H.
+  - destruct (opt_bytes_eqb p (Some alpn_h2)); [destruct oh|]; one_dial; apply D;
+      try (intros; eexists; reflexivity); try discriminate; intros v Hv; discriminate.
+  - one_dial. apply D; [intros v Hv; discriminate|]. intros Hc. inversion Hc. reflexivity.
 Qed.
 
 Lemma check_altsvc_sound e c r : check_altsvc e c = Some r -> req_sound e c r.
@@ -288,17 +314,16 @@ Proof.
     eapply check_altsvc_sound; eauto.
   - destruct (c_force c).
     + destruct (e_https e && negb false).
-      * destruct (c_t2 c); [split; [constructor | intros X; contradiction]|].
+      * destruct (c_t2 c); [constructor|].
         destruct (c_h3 c); [|apply rt_conn_sound].
         destruct (rt_h3 true e c) eqn:E; [eapply rt_h3_sound; eauto | apply rt_conn_sound].
       * apply rt_conn_sound.
     + destruct (e_https e && negb true); [|apply rt_conn_sound].
-      destruct (c_t2 c); [split; [constructor | intros X; contradiction]|].
+      destruct (c_t2 c); [constructor|].
       destruct (c_h3 c); [|apply rt_conn_sound].
       destruct (rt_h3 true e c) eqn:E; [eapply rt_h3_sound; eauto | apply rt_conn_sound].
     + apply rt_h2_dial_sound.
-    + destruct (rt_h3 false e c) eqn:E; [eapply rt_h3_sound; eauto|].
-      split; [constructor | intros X; contradiction].
+    + destruct (rt_h3 false e c) eqn:E; [eapply rt_h3_sound; eauto|]. constructor.
 Qed.
 
 Lemma after_response_sound e c r : req_sound e c r -> req_sound e c (after_response e r).
@@ -310,6 +335,23 @@ Qed.
 
 Lemma do_req_sound g e c : req_sound e c (do_req_gen g e c).
 Proof. unfold do_req_gen. apply after_response_sound, round_trip_sound. Qed.
+
+(* without caller-supplied TLS every handshake, TCP or QUIC, is governed by the client's settings *)
+Lemma settings_for_client e c q : user_tls c = None -> settings_for e c q = effective (e_host e) (c_tls c).
+Proof. intros U. unfold settings_for, tcp_settings. rewrite U. destruct q; reflexivity. Qed.
+
+Lemma do_req_sound_client g e c :
+  user_tls c = None ->
+  let '(o, ds, _) := do_req_gen g e c in
+  Forall (fun d => d_sni d = t_sname (effective (e_host e) (c_tls c))) ds /\
+  (ds <> [] -> (forall v, o = Use v -> acceptable e c = true) /\ (o = Fail ECert -> acceptable e c = false)).
+Proof.
+  intros U. pose proof (do_req_sound g e c) as S. unfold req_sound in S.
+  destruct (do_req_gen g e c) as [[o ds] c']. split.
+  - eapply Forall_impl; [|exact S]. intros d [H _]. rewrite settings_for_client in H by exact U. exact H.
+  - intros N. destruct ds as [|d r]; [contradiction|]. inversion S as [|? ? [_ [A B]] _]. subst.
+    rewrite settings_for_client in A, B by exact U. split; [exact A | exact B].
+Qed.
 
 Lemma first_common_mem srv cli p : first_common srv cli = Some p -> mem_bytes p srv = true.
 Proof.
@@ -366,6 +408,18 @@ Proof.
          end; cbn; try (left; reflexivity); right; eexists; reflexivity.
 Qed.
 
+Lemma handshake_ok_mem protos cfg s p : handshake protos cfg s = HsOk (Some p) -> mem_bytes p protos = true.
+Proof.
+  unfold handshake. destruct (negotiate protos (t_next cfg)) as [q| |] eqn:N; try discriminate;
+    destruct (negb (verify_ok cfg s)); try discriminate; destruct (negb (clientcert_ok cfg s)); try discriminate.
+  intros H; inversion H; subst. eapply negotiate_mem; eauto.
+Qed.
+
+Lemma opt_bytes_eqb_some p q : opt_bytes_eqb p (Some q) = true -> p = Some q.
+Proof.
+  destruct p as [x|]; cbn; [|discriminate]. intros H. apply bytes_eqb_eq in H. congruence.
+Qed.
+
 (* the connection path: HTTP/1.1; HTTP/2 only when not restricted to h1 and the server selected h2; clear text
    only through a plain DialTLSContext *)
 Lemma rt_conn_outcome e c :
@@ -382,16 +436,11 @@ Proof.
   destruct (if oh then c_idle1 c else c_idle c); [exact I|].
   destruct (e_https e); cbn [negb]; [|exact I].
   destruct (c_plain_dialtls c); [split; reflexivity|].
-  unfold handshake.
-  destruct (negotiate (s_alpn (e_srv e)) (t_next (tls_view S1 oh (e_host e) (c_tls c)))) as [p| |] eqn:N;
-    try reflexivity;
-    destruct (negb (verify_ok _ _)); try reflexivity; destruct (negb (clientcert_ok _ _)); try reflexivity.
-  - destruct oh eqn:O; cbn [negb andb fst]; [exact I|].
-    destruct (opt_bytes_eqb (Some p) (Some alpn_h2)) eqn:Q; cbn [fst]; [|exact I].
-    split; [subst oh; destruct (c_force c); congruence|]. split; [reflexivity|].
-    cbn in Q. apply bytes_eqb_eq in Q. rewrite Q in N. eapply negotiate_mem; eauto.
-  - destruct (negb oh && opt_bytes_eqb None (Some alpn_h2)) eqn:Q; cbn [fst]; [|exact I].
-    destruct (negb oh); discriminate.
+  destruct (handshake (s_alpn (e_srv e)) (tcp_cfg S1 oh (e_host e) c) (e_srv e)) as [p|er] eqn:H; cbn [fst]; [|reflexivity].
+  destruct (opt_bytes_eqb p (Some alpn_h2)) eqn:Q; [|exact I].
+  destruct oh eqn:O; cbn [fst]; [reflexivity|].
+  split; [subst oh; destruct (c_force c); congruence|]. split; [reflexivity|].
+  apply opt_bytes_eqb_some in Q. subst p. eapply handshake_ok_mem; eauto.
 Qed.
 
 (* a forced version is used or the request fails (clear text only through a plain DialTLSContext) *)
@@ -455,18 +504,6 @@ Proof.
   - intros H I3 I2; inversion H; cbn. rewrite T. split; [discriminate | exact I2].
 Qed.
 
-Lemma handshake_ok_mem protos cfg s p : handshake protos cfg s = HsOk (Some p) -> mem_bytes p protos = true.
-Proof.
-  unfold handshake. destruct (negotiate protos (t_next cfg)) as [q| |] eqn:N; try discriminate;
-    destruct (negb (verify_ok cfg s)); try discriminate; destruct (negb (clientcert_ok cfg s)); try discriminate.
-  intros H; inversion H; subst. eapply negotiate_mem; eauto.
-Qed.
-
-Lemma opt_bytes_eqb_some p q : opt_bytes_eqb p (Some q) = true -> p = Some q.
-Proof.
-  destruct p as [x|]; cbn; [|discriminate]. intros H. apply bytes_eqb_eq in H. congruence.
-Qed.
-
 Lemma rt_h2_dial_t3 e c : c_t3 (snd (rt_h2_dial e c)) = c_t3 c.
 Proof.
   unfold rt_h2_dial.
@@ -487,9 +524,9 @@ Proof.
   { destruct (e_https e); cbn [negb andb]; [left; cbn; auto|].
     destruct (s_h2c (e_srv e)); [right; reflexivity | left; cbn; auto]. }
   destruct (e_https e); cbn [negb]; [|left; cbn; auto].
-  destruct (handshake (s_alpn (e_srv e)) (tls_view S2 false (e_host e) (c_tls c)) (e_srv e)) as [p|er] eqn:H;
+  destruct (handshake (s_alpn (e_srv e)) (tcp_cfg S2 false (e_host e) c) (e_srv e)) as [p|er] eqn:H;
     [|left; cbn; auto].
-  destruct (opt_bytes_eqb p (Some alpn_h2)) eqn:Q; [|left; cbn; auto].
+  destruct (opt_bytes_eqb p (Some alpn_h2)) eqn:Q; [|destruct (c_udial c); left; cbn; auto].
   right. apply opt_bytes_eqb_some in Q. subst p. eapply handshake_ok_mem; eauto.
 Qed.
 
@@ -775,8 +812,8 @@ Lemma rt_h2_dial_dials e c :
   e_https e = true -> c_plain_dialtls c = false -> c_t2 c = false -> dials_or_fails (rt_h2_dial e c).
 Proof.
   intros Hs Hp H2. unfold rt_h2_dial. rewrite Hs, Hp, H2. cbn [negb orb andb].
-  destruct (handshake (s_alpn (e_srv e)) (tls_view S2 false (e_host e) (c_tls c)) (e_srv e)) as [p|er].
-  - destruct (opt_bytes_eqb p (Some alpn_h2)); (split; [discriminate | left; discriminate]).
+  destruct (handshake (s_alpn (e_srv e)) (tcp_cfg S2 false (e_host e) c) (e_srv e)) as [p|er].
+  - destruct (opt_bytes_eqb p (Some alpn_h2)); [|destruct (c_udial c)]; (split; [discriminate | left; discriminate]).
   - split; [discriminate | left; discriminate].
 Qed.
 
@@ -787,8 +824,8 @@ Proof.
   intros Hs Hp Hi Hi1. unfold rt_conn. rewrite Hs, Hp, Hi, Hi1. cbn [negb].
   set (oh := match c_force c with FH1 => true | _ => false end).
   replace (if oh then false else false) with false by (destruct oh; reflexivity).
-  destruct (handshake (s_alpn (e_srv e)) (tls_view S1 oh (e_host e) (c_tls c)) (e_srv e)) as [p|er].
-  - destruct (negb oh && opt_bytes_eqb p (Some alpn_h2)); (split; [discriminate | left; discriminate]).
+  destruct (handshake (s_alpn (e_srv e)) (tcp_cfg S1 oh (e_host e) c) (e_srv e)) as [p|er].
+  - destruct (opt_bytes_eqb p (Some alpn_h2)); [destruct oh|]; (split; [discriminate | left; discriminate]).
   - split; [discriminate | left; discriminate].
 Qed.
 
@@ -830,15 +867,15 @@ Qed.
    request that has no connection to reuse is refused when the origin is unacceptable under the client's
    settings, and is never refused for its certificate when the origin is acceptable *)
 Lemma new_connection_decided_by_settings e c :
-  e_https e = true -> c_plain_dialtls c = false -> no_conns c ->
+  e_https e = true -> c_plain_dialtls c = false -> user_tls c = None -> no_conns c ->
   (acceptable e c = false -> exists er, outcome_of (do_req e c) = Fail er) /\
   (acceptable e c = true -> outcome_of (do_req e c) <> Fail ECert).
 Proof.
-  intros Hs Hp Hn.
-  pose proof (do_req_sound altsvc_only_unforced e c) as S.
+  intros Hs Hp Hu Hn.
+  pose proof (do_req_sound_client altsvc_only_unforced e c Hu) as S.
   pose proof (after_response_dials e _ (round_trip_dials altsvc_only_unforced e c Hs Hp Hn)) as D.
   unfold do_req. fold (do_req_gen altsvc_only_unforced e c) in D.
-  unfold req_sound in S. unfold dials_or_fails in D.
+  unfold dials_or_fails in D.
   destruct (do_req_gen altsvc_only_unforced e c) as [[o ds] c']. unfold outcome_of. cbn [fst].
   destruct S as [_ S]. destruct D as [NC [D|[er [-> Her]]]].
   - destruct (S D) as [SU SF]. split.
@@ -850,11 +887,28 @@ Qed.
 
 (* all three forced versions agree: same client settings, same origin, no connection to reuse *)
 Lemma forced_versions_agree e c f :
-  e_https e = true -> c_plain_dialtls c = false -> no_conns c ->
+  e_https e = true -> c_plain_dialtls c = false -> user_tls c = None -> no_conns c ->
   (acceptable e c = false -> exists er, outcome_of (do_req e (with_force f c)) = Fail er) /\
   (acceptable e c = true -> outcome_of (do_req e (with_force f c)) <> Fail ECert).
 Proof.
-  intros Hs Hp Hn. apply (new_connection_decided_by_settings e (with_force f c)); assumption.
+  intros Hs Hp Hu Hn. apply (new_connection_decided_by_settings e (with_force f c)); assumption.
+Qed.
+
+(* with caller-supplied TLS (SetDialTLS / SetTLSHandshake) the same holds with the caller's configuration in
+   the place of the client's for the TCP versions, HTTP/3 staying under the client's settings *)
+Lemma user_tls_governs_tcp_only e c t :
+  user_tls c = Some t ->
+  let '(o, ds, _) := do_req e c in
+  Forall (fun d =>
+    let g := if stack_quic (d_stack d) then effective (e_host e) (c_tls c) else default_sname (e_host e) t in
+    d_sni d = t_sname g /\
+    (forall v, o = Use v -> acceptable_under g e = true) /\
+    (o = Fail ECert -> acceptable_under g e = false)) ds.
+Proof.
+  intros U. pose proof (do_req_sound altsvc_only_unforced e c) as S. unfold req_sound in S.
+  unfold do_req. destruct (do_req_gen altsvc_only_unforced e c) as [[o ds] c'].
+  eapply Forall_impl; [|exact S]. intros d H. unfold dial_sound, settings_for, tcp_settings in H.
+  rewrite U in H. exact H.
 Qed.
 
 (* ---------- forcing a version after the client has been used ---------- *)
